@@ -40,8 +40,11 @@ var c03Points = []string{"exec.returned", "exec.pushed", "exec.unlocked", "submi
 func genC03(t *rapid.T) CaseC03 {
 	cfg := gkit.GenCfg{MaxNodes: 7, Depth: 1, Cycles: true, NoFailMix: true, SubModes: []string{"pregel", "dag", "workflow", "chain"}}
 	var c CaseC03
-	if rapid.IntRange(0, 5).Draw(t, "wide") == 0 {
+	if w := rapid.IntRange(0, 6).Draw(t, "wide"); w == 0 {
 		c.Spec = gkit.GenWide(t, cfg)
+	} else if w == 1 {
+		// directed: one join reached by plain edges and through branches of producers that finish in a generated order
+		c.Spec = gkit.GenJoinMix(t, cfg)
 	} else {
 		mode := []string{"pregel", "dag", "workflow", "workflow", "chain"}[rapid.IntRange(0, 4).Draw(t, "mode")]
 		c.Spec = gkit.GenTop(t, mode, cfg)
